@@ -54,6 +54,437 @@ SYN_COMPLEX = '<complex>'
 SYN_PARAM = '<parameter>'
 
 
+
+# ------------------------------------------------------------------------------------------------ AST templates
+# The hand-written methods of the classes that are brought inside the model are matched, statement by statement, against the
+# templates below (docstrings, comments and annotations do not count).  Placeholders: string constants 'S_x' bind a string
+# (a literal, or a class attribute such as cls._nvar0), attribute names F_x bind a field name, CLS is the class itself (any
+# class of its MRO), ANY_x any name, K_x any literal, 'M_..' any message text.  A method that deviates from its template in
+# any other way makes the class unclassifiable - reported as a broken obligation when the class is in the committed list of
+# modelled classes (translate/xml_constructs_expected.json) - never silently opaque.
+
+T = {}
+T['poly1_to_node'] = """
+def to_node(self, doc, tag, ns_key=None, parent=None, check_validity=False, strict=DEFAULT_STRICT, exclude=()):
+    if parent is None:
+        parent = doc.getroot()
+    if ns_key is None:
+        node = create_new_node(doc, tag, parent=parent)
+    else:
+        node = create_new_node(doc, '{}:{}'.format(ns_key, tag), parent=parent)
+    if 'S_field' in self._child_xml_ns_key:
+        ctag = 'S_ctagfmt'.format(self._child_xml_ns_key['S_field'])
+    elif ns_key is not None:
+        ctag = 'S_ctagfmt'.format(ns_key)
+    else:
+        ctag = 'S_coef'
+    node.attrib['S_dim1'] = str(self.order1)
+    fmt_func = self._get_formatter('S_fmt')
+    for i, val in enumerate(self.Coefs):
+        cnode = create_text_node(doc, ctag, fmt_func(val), parent=node)
+        cnode.attrib['S_exp1'] = str(i)
+    return node
+"""
+T['poly1_from_node'] = """
+def from_node(cls, node, xml_ns, ns_key=None, kwargs=None):
+    order1 = int(node.attrib['S_pdim1'])
+    coefs = numpy.zeros((order1+1, ), dtype=numpy.float64)
+    coef_key = cls._child_xml_ns_key.get('S_pfield', ns_key)
+    coef_nodes = find_children(node, 'S_pcoef', xml_ns, coef_key)
+    for cnode in coef_nodes:
+        ind = int(cnode.attrib['S_pexp1'])
+        val = float(get_node_value(cnode))
+        coefs[ind] = val
+    return cls(Coefs=coefs)
+"""
+T['poly2_to_node'] = """
+def to_node(self, doc, tag, ns_key=None, parent=None, check_validity=False, strict=DEFAULT_STRICT, exclude=()):
+    if parent is None:
+        parent = doc.getroot()
+    if ns_key is None:
+        node = create_new_node(doc, tag, parent=parent)
+    else:
+        node = create_new_node(doc, '{}:{}'.format(ns_key, tag), parent=parent)
+    if 'S_field' in self._child_xml_ns_key:
+        ctag = 'S_ctagfmt'.format(self._child_xml_ns_key['S_field'])
+    elif ns_key is not None:
+        ctag = 'S_ctagfmt'.format(ns_key)
+    else:
+        ctag = 'S_coef'
+    node.attrib['S_dim1'] = str(self.order1)
+    node.attrib['S_dim2'] = str(self.order2)
+    fmt_func = self._get_formatter('S_fmt')
+    for i, val1 in enumerate(self._coefs):
+        for j, val in enumerate(val1):
+            cnode = create_text_node(doc, ctag, fmt_func(val), parent=node)
+            cnode.attrib['S_exp1'] = str(i)
+            cnode.attrib['S_exp2'] = str(j)
+    return node
+"""
+T['poly2_from_node'] = """
+def from_node(cls, node, xml_ns, ns_key=None, kwargs=None):
+    order1 = int(node.attrib['S_pdim1'])
+    order2 = int(node.attrib['S_pdim2'])
+    coefs = numpy.zeros((order1+1, order2+1), dtype=numpy.float64)
+    coef_key = cls._child_xml_ns_key.get('S_pfield', ns_key)
+    coef_nodes = find_children(node, 'S_pcoef', xml_ns, coef_key)
+    for cnode in coef_nodes:
+        ind1 = int(cnode.attrib['S_pexp1'])
+        ind2 = int(cnode.attrib['S_pexp2'])
+        val = float(get_node_value(cnode))
+        coefs[ind1, ind2] = val
+    return cls(Coefs=coefs)
+"""
+T['custom_to_node'] = """
+def to_node(self, doc, tag, ns_key=None, parent=None, check_validity=False, strict=DEFAULT_STRICT, exclude=()):
+    if parent is None:
+        parent = doc.getroot()
+    if ns_key is None:
+        node = create_new_node(doc, tag, parent=parent)
+    else:
+        node = create_new_node(doc, '{}:{}'.format(ns_key, tag), parent=parent)
+    fc_tag = 'S_wrap' if ns_key is None else 'S_wrapfmt'
+    filter_coefs_node = create_new_node(doc, fc_tag, parent=node)
+    if 'S_field' in self._child_xml_ns_key:
+        ctag = 'S_ctagfmt'.format(self._child_xml_ns_key['S_field'])
+    elif ns_key is not None:
+        ctag = 'S_ctagfmt'.format(ns_key)
+    else:
+        ctag = 'S_coef'
+    filter_coefs_node.attrib['S_dim1'] = str(self._shape0())
+    filter_coefs_node.attrib['S_dim2'] = str(self._shape1())
+    fmt_func = self._get_formatter('S_fmt')
+    for i, val1 in enumerate(self._coefs):
+        for j, val in enumerate(val1):
+            cnode = create_text_node(doc, ctag, fmt_func(val), parent=filter_coefs_node)
+            cnode.attrib['S_exp1'] = str(i)
+            cnode.attrib['S_exp2'] = str(j)
+    return node
+"""
+T['custom_from_node'] = """
+def from_node(cls, node, xml_ns, ns_key=None, kwargs=None):
+    filter_coefs_node = find_first_child(node, 'S_pwrap', xml_ns, ns_key)
+    num_x = int(filter_coefs_node.attrib['S_pdim1'])
+    num_y = int(filter_coefs_node.attrib['S_pdim2'])
+    coefs = numpy.zeros((num_x, num_y), dtype=numpy.float64)
+    ckey = cls._child_xml_ns_key.get('S_pfield', ns_key)
+    coef_nodes = find_children(filter_coefs_node, 'S_pcoef', xml_ns, ckey)
+    for cnode in coef_nodes:
+        ind1 = int(cnode.attrib['S_pexp1'])
+        ind2 = int(cnode.attrib['S_pexp2'])
+        val = float(get_node_value(cnode))
+        coefs[ind1, ind2] = val
+    return cls(Coefs=coefs)
+"""
+T['coefs_to_dict'] = """
+def to_dict(self, check_validity=False, strict=DEFAULT_STRICT, exclude=()):
+    out = OrderedDict()
+    out['S_dname'] = self.Coefs.tolist()
+    return out
+"""
+T['order_1d'] = "def order1(self):\n    return self.Coefs.size - 1\n"
+T['order_2d_0'] = "def order1(self):\n    return self._coefs.shape[0] - 1\n"
+T['order_2d_1'] = "def order2(self):\n    return self._coefs.shape[1] - 1\n"
+T['shape_0'] = "def _shape0(self):\n    return self._coefs.shape[0]\n"
+T['shape_1'] = "def _shape1(self):\n    return self._coefs.shape[1]\n"
+# read-only properties listed in _fields
+T['count_a'] = "def ANY_f(self):\n    if self.F_src is None:\n        return 0\n    return len(self.F_src)\n"
+T['count_b'] = "def ANY_f(self):\n    if self.F_src is None:\n        return 0\n    else:\n        return len(self.F_src)\n"
+T['const'] = "def ANY_f(self):\n    return K_value\n"
+T['which'] = """
+def ANY_f(self):
+    for attribute in self._choice[0]['collection']:
+        if getattr(self, attribute) is not None:
+            return attribute
+    return None
+"""
+# property-backed string fields: what is assigned (a str, or the text of the node from_node hands over) is what is held
+T['strprop_get'] = "def ANY_f(self):\n    return self.F_priv\n"
+T['strprop_set_nodata'] = """
+def ANY_f(self, value):
+    if value is None:
+        self.F_priv = None
+        return
+    if isinstance(value, ElementTree.Element):
+        value = get_node_value(value)
+    if isinstance(value, str):
+        self.F_priv = value
+    elif isinstance(value, bytes):
+        self.F_priv = value.decode('utf-8')
+    elif isinstance(value, int):
+        raise NotImplementedError
+    elif isinstance(value, float):
+        raise NotImplementedError
+    else:
+        raise TypeError('M_'.format(type(value)))
+"""
+T['strprop_set_localdt'] = """
+def ANY_f(self, value):
+    if value is None:
+        self.F_priv = None
+        return
+    elif isinstance(value, datetime.datetime):
+        value = value.isoformat('T')
+    elif isinstance(value, ElementTree.Element):
+        value = get_node_value(value)
+    if isinstance(value, str):
+        self.F_priv = value
+    else:
+        logger.error('M_'.format(type(value)))
+        self.F_priv = None
+"""
+# wrapped parameter collection (ErrorStatisticsType.AdditionalParms)
+T['wrapparams_from_node'] = """
+def from_node(cls, node, xml_ns, ns_key=None, kwargs=None):
+    if kwargs is None:
+        kwargs = {}
+    ap_key = cls._child_xml_ns_key.get('S_field', ns_key)
+    ap_node = find_first_child(node, 'S_pwrap', xml_ns, ap_key)
+    kwargs['S_field'] = None if ap_node is None else find_children(ap_node, 'S_pchild', xml_ns, ap_key)
+    return super(CLS, cls).from_node(node, xml_ns, ns_key=ns_key, kwargs=kwargs)
+"""
+T['wrapparams_to_node'] = """
+def to_node(self, doc, tag, ns_key=None, parent=None, check_validity=False, strict=DEFAULT_STRICT, exclude=()):
+    node = super(CLS, self).to_node(
+        doc, tag, ns_key=ns_key, parent=parent, check_validity=check_validity, strict=strict,
+        exclude=exclude+('S_field', ))
+    the_params = self.F_field
+    if the_params is not None and 'S_field' not in exclude and the_params.get_collection():
+        ap_key = self._child_xml_ns_key.get('S_field', getattr(self, '_xml_ns_key', ns_key))
+        if ap_key == 'default':
+            ap_key = None
+        ap_node = create_new_node(
+            doc, 'S_wrap' if ap_key is None else 'S_wrapfmt'.format(ap_key), parent=node)
+        the_params.to_node(doc, ns_key=ap_key, parent=ap_node, check_validity=check_validity, strict=strict)
+    return node
+"""
+# from_node overrides that only guard or dispatch legacy documents before the generic method
+T['guard_legacy_child'] = """
+def from_node(cls, node, xml_ns, ns_key=None, kwargs=None):
+    coll_key = cls._child_xml_ns_key.get('S_legacy', ns_key)
+    coll = find_first_child(node, 'S_legacy', xml_ns, coll_key)
+    if coll is not None:
+        return cls._from_node_0_5(node, xml_ns, ns_key)
+    else:
+        return super(CLS, cls).from_node(node, xml_ns, ns_key=ns_key, kwargs=kwargs)
+"""
+T['guard_radiometric'] = """
+def from_node(cls, node, xml_ns, ns_key=None, kwargs=None):
+    if kwargs is not None:
+        kwargs = {}
+    nkey = cls._child_xml_ns_key.get('S_legacy', ns_key)
+    nlevel = find_first_child(node, 'S_legacy', xml_ns, nkey)
+    if nlevel is not None:
+        kwargs['S_target'] = ANY_type.from_node(nlevel, xml_ns, ns_key=ns_key, kwargs=kwargs)
+    return super(CLS, cls).from_node(node, xml_ns, ns_key=ns_key, kwargs=kwargs)
+"""
+T['guard_wgttype'] = """
+def from_node(cls, node, xml_ns, ns_key=None, kwargs=None):
+    win_key = cls._child_xml_ns_key.get('S_own', ns_key)
+    win_name = find_first_child(node, 'S_own', xml_ns, win_key)
+    if win_name is None:
+        if kwargs is None:
+            kwargs = {}
+        values = node.text.strip().split()
+        kwargs['S_own'] = values[0]
+        params = {}
+        for entry in values[1:]:
+            try:
+                name, val = entry.split('=')
+                params[name] = val
+            except ValueError:
+                continue
+        kwargs['S_params'] = params
+        return cls.from_dict(kwargs)
+    else:
+        return super(CLS, cls).from_node(node, xml_ns, ns_key=ns_key, kwargs=kwargs)
+"""
+T['guard_sidd_a'] = """
+def from_node(cls, node, xml_ns, ns_key='default', kwargs=None):
+    if ns_key is None:
+        raise ValueError('M_')
+    if ns_key not in xml_ns:
+        raise ValueError('M_'.format(ns_key))
+    valid_ns = validate_xml_ns(xml_ns, ns_key)
+    if not xml_ns[ns_key].startswith('S_urn'):
+        raise ValueError('M_'.format(xml_ns[ns_key]))
+    if not valid_ns:
+        logger.warning('M_')
+    return super(CLS, cls).from_node(node, xml_ns, ns_key=ns_key, kwargs=kwargs)
+"""
+T['guard_sidd_b'] = """
+def from_node(cls, node, xml_ns, ns_key='default', kwargs=None):
+    if ns_key is None:
+        raise ValueError('M_')
+    if ns_key not in xml_ns:
+        raise ValueError('M_'.format(ns_key))
+    if xml_ns[ns_key].startswith('S_oldurn'):
+        return ANY_old.from_node(node, xml_ns, ns_key=ns_key, kwargs=kwargs)
+    valid_ns = validate_xml_ns(xml_ns, ns_key)
+    if not xml_ns[ns_key].startswith('S_urn'):
+        raise ValueError('M_'.format(xml_ns[ns_key]))
+    if not valid_ns:
+        logger.warning('M_')
+    return super(CLS, cls).from_node(node, xml_ns, ns_key=ns_key, kwargs=kwargs)
+"""
+T['guard_sidd_c'] = """
+def from_node(cls, node, xml_ns, ns_key='default', kwargs=None):
+    if ns_key is None:
+        raise ValueError('M_')
+    if ns_key not in xml_ns:
+        raise ValueError('M_'.format(ns_key))
+    if xml_ns[ns_key].startswith('S_oldurn'):
+        return ANY_old.from_node(node, xml_ns, ns_key=ns_key, kwargs=kwargs)
+    elif xml_ns[ns_key].startswith('S_oldurn2'):
+        return ANY_old2.from_node(node, xml_ns, ns_key=ns_key, kwargs=kwargs)
+    valid_ns = validate_xml_ns(xml_ns, ns_key)
+    if not xml_ns[ns_key].startswith('S_urn'):
+        raise ValueError('M_'.format(xml_ns[ns_key]))
+    if not valid_ns:
+        logger.warning('M_')
+    return super(CLS, cls).from_node(node, xml_ns, ns_key=ns_key, kwargs=kwargs)
+"""
+# copy() that only carries a private attribute over
+T['copy_private'] = """
+def copy(self):
+    out = super(CLS, self).copy()
+    out.F_priv = deepcopy(self.F_priv)
+    return out
+"""
+_T_AST = {}
+
+
+def _template(name):
+    if name not in _T_AST:
+        _T_AST[name] = _strip(ast.parse(textwrap.dedent(T[name])).body[0])
+    return _T_AST[name]
+
+
+def _strip(fn):
+    """drop docstring, decorators, annotations"""
+    fn.decorator_list = []
+    fn.returns = None
+    for a in fn.args.args + fn.args.kwonlyargs + ([fn.args.vararg] if fn.args.vararg else []) + ([fn.args.kwarg] if fn.args.kwarg else []):
+        a.annotation = None
+    if fn.body and isinstance(fn.body[0], ast.Expr) and isinstance(fn.body[0].value, ast.Constant) and isinstance(fn.body[0].value.value, str):
+        fn.body = fn.body[1:] or [ast.Pass()]
+    return fn
+
+
+def fn_ast(f):
+    """normalised AST of a function / classmethod / property getter, or None"""
+    if isinstance(f, (classmethod, staticmethod)):
+        f = f.__func__
+    try:
+        return _strip(ast.parse(textwrap.dedent(inspect.getsource(f))).body[0])
+    except Exception:
+        return None
+
+
+_SKIP = ('lineno', 'col_offset', 'end_lineno', 'end_col_offset', 'ctx', 'type_comment', 'kind')
+
+
+def unify(t, a, b, cls):
+    """match actual AST `a` against template `t`; fills the bindings `b`; returns None or a description of the first mismatch"""
+    if isinstance(t, ast.Constant) and isinstance(t.value, str) and t.value.startswith('M_'):
+        return None if isinstance(a, (ast.Constant, ast.JoinedStr)) else 'message expected'
+    if isinstance(t, ast.Constant) and isinstance(t.value, str) and t.value.startswith('S_'):
+        if isinstance(a, ast.Constant) and isinstance(a.value, str):
+            v = a.value
+        elif isinstance(a, ast.JoinedStr):
+            # f'{ns_key}:X' is the same text as '{}:X'.format(ns_key): only the literal part is bound
+            v = ''.join(p.value if isinstance(p, ast.Constant) else '{}' for p in a.values)
+        elif isinstance(a, ast.Attribute) and isinstance(a.value, ast.Name) and a.value.id in ('self', 'cls') and \
+                isinstance(getattr(cls, a.attr, None), str):
+            v = getattr(cls, a.attr)
+        else:
+            return f'string expected for {t.value}, got {ast.unparse(a)[:60]}'
+        if b.setdefault(t.value, v) != v:
+            return f'{t.value} bound to both {b[t.value]!r} and {v!r}'
+        return None
+    if isinstance(t, ast.Name) and t.id == 'CLS':
+        ok = isinstance(a, ast.Name) and a.id in [k.__name__ for k in cls.__mro__]
+        return None if ok else f'class name expected, got {ast.unparse(a)[:40]}'
+    if isinstance(t, ast.Name) and t.id.startswith('ANY_'):
+        if not isinstance(a, ast.Name):
+            return f'name expected, got {ast.unparse(a)[:40]}'
+        b.setdefault(t.id, a.id)
+        return None
+    if isinstance(t, ast.Name) and t.id.startswith('K_'):
+        if not isinstance(a, ast.Constant):
+            return f'literal expected, got {ast.unparse(a)[:40]}'
+        b[t.id] = a.value
+        return None
+    if type(t) is not type(a):
+        return f'{type(a).__name__} `{ast.unparse(a)[:60]}` where {type(t).__name__} `{ast.unparse(t)[:60]}` expected'
+    if isinstance(t, ast.FunctionDef):
+        if t.name.startswith('ANY_'):
+            pass
+        elif t.name != a.name:
+            return f'function {a.name}'
+        for fld in ('args', 'body'):
+            r = unify(getattr(t, fld), getattr(a, fld), b, cls)
+            if r:
+                return r
+        return None
+    if isinstance(t, ast.Attribute) and t.attr.startswith('F_'):
+        r = unify(t.value, a.value, b, cls)
+        if r:
+            return r
+        if b.setdefault(t.attr, a.attr) != a.attr:
+            return f'{t.attr} bound to both {b[t.attr]} and {a.attr}'
+        return None
+    if isinstance(t, list):
+        if len(t) != len(a):
+            return f'{len(a)} statements/items where {len(t)} expected near `{ast.unparse(a[0])[:60] if a else ""}`'
+        for x, y in zip(t, a):
+            r = unify(x, y, b, cls)
+            if r:
+                return r
+        return None
+    if isinstance(t, ast.AST):
+        for fld in t._fields:
+            if fld in _SKIP:
+                continue
+            x, y = getattr(t, fld, None), getattr(a, fld, None)
+            if isinstance(x, (ast.AST, list)):
+                if y is None:
+                    return f'missing {fld}'
+                r = unify(x, y, b, cls)
+                if r:
+                    return r
+            elif x != y:
+                return f'`{ast.unparse(a)[:70]}` where `{ast.unparse(t)[:70]}` expected'
+        return None
+    return None if t == a else f'{a!r} != {t!r}'
+
+
+def match(cls, f, *names):
+    """bindings of the first template among `names` that the function matches, else (None, reasons)"""
+    a = fn_ast(f)
+    if a is None:
+        return None, None, 'source unavailable'
+    why = []
+    for nm in names:
+        b = {}
+        r = unify(_template(nm), a, b, cls)
+        if r is None:
+            return nm, b, None
+        why.append(f'{nm}: {r}')
+    return None, None, '; '.join(why)
+
+
+def own_method(c, name):
+    """(defining class, function) of a codec method defined below Serializable, else (None, None)"""
+    from sarpy.io.xml.base import Serializable
+    for k in c.__mro__:
+        if k is Serializable:
+            return None, None
+        if name in k.__dict__:
+            return k, k.__dict__[name]
+    return None, None
+
+
 def qual(c):
     return c if isinstance(c, str) else c.__module__ + '.' + c.__qualname__
 
@@ -149,7 +580,116 @@ def norm_ns(k):
     return None if k in (None, 'default') else k
 
 
-def field_rows(c, ctx):
+# ------------------------------------------------------------------------------------------------ rules read from base.py
+
+def farr_index_base(child_tag):
+    """`index` attribute of the first child of a float array, from the source of Serializable.to_node.serialize_array
+    (`vnode.attrib['index'] = str(i) if ch_tag == 'Amplitude' else str(i + 1)`): evaluated at i = 0 and checked to be i + base"""
+    from sarpy.io.xml.base import Serializable
+    fn = ast.parse(textwrap.dedent(inspect.getsource(Serializable.to_node))).body[0]
+    for n in ast.walk(fn):
+        if isinstance(n, ast.FunctionDef) and n.name == 'serialize_array':
+            for m in ast.walk(n):
+                if isinstance(m, ast.Assign) and len(m.targets) == 1 and isinstance(m.targets[0], ast.Subscript) and \
+                        ast.unparse(m.targets[0].value) == 'vnode.attrib' and isinstance(m.targets[0].slice, ast.Constant):
+                    code = compile(ast.Expression(m.value), '<index>', 'eval')
+                    vals = [eval(code, {'__builtins__': {}, 'str': str}, {'i': i, 'ch_tag': child_tag}) for i in (0, 1, 7)]
+                    base = int(vals[0])
+                    if [int(v) for v in vals] != [base, base + 1, base + 7] or any(v != str(int(v)) for v in vals):
+                        raise ValueError(f'index rule is not i + const: {ast.unparse(m.value)}')
+                    return m.targets[0].slice.value, base
+    raise ValueError('serialize_array: no assignment to vnode.attrib[...]')
+
+
+def array_index_rule(ext, child_type):
+    """(field name the container overwrites, labels) or (None, []) — from the source of `_check_indices`.
+    SerializableArray: `setattr(entry, self._index_var_name, i+1)` when `_set_index`; SerializableCPArray: four literal
+    assignments per branch (`_index_as_string` iff the child class has `_CORNER_VALUES`)."""
+    from sarpy.io.xml.base import SerializableArray
+    owner = next(k for k in ext.__mro__ if '_check_indices' in k.__dict__)
+    fn = ast.parse(textwrap.dedent(inspect.getsource(owner._check_indices))).body[0]
+    if owner is SerializableArray:
+        if not ext._set_index:
+            return None, []
+        calls = [n for n in ast.walk(fn) if isinstance(n, ast.Call) and isinstance(n.func, ast.Name) and n.func.id == 'setattr']
+        if len(calls) != 1 or ast.unparse(calls[0].args[1]) != 'self._index_var_name':
+            raise ValueError('unexpected _check_indices')
+        code = compile(ast.Expression(calls[0].args[2]), '<idx>', 'eval')
+        vals = [eval(code, {'__builtins__': {}}, {'i': i}) for i in (0, 1, 7)]
+        if vals != [1, 2, 8]:
+            raise ValueError(f'index rule is not i + 1: {ast.unparse(calls[0].args[2])}')
+        return ext._index_var_name, []
+    if owner.__name__ == 'SerializableCPArray':
+        if not (len(fn.body) == 1 and isinstance(fn.body[0], ast.If) and ast.unparse(fn.body[0].test) == 'not self._index_as_string'):
+            raise ValueError('unexpected SerializableCPArray._check_indices')
+
+        def consts(stmts):
+            out = []
+            for k, st in enumerate(stmts):
+                if not (isinstance(st, ast.Assign) and ast.unparse(st.targets[0]) == f'self._array[{k}].index' and isinstance(st.value, ast.Constant)):
+                    raise ValueError('unexpected statement in SerializableCPArray._check_indices: ' + ast.unparse(st))
+                out.append(st.value.value)
+            return out
+        ints, labels = consts(fn.body[0].body), consts(fn.body[0].orelse)
+        if ints != [1, 2, 3, 4] or len(labels) != 4:
+            raise ValueError(f'corner indices {ints} / {labels}')
+        return 'index', (list(labels) if hasattr(child_type, '_CORNER_VALUES') else [])
+    raise ValueError(f'{owner.__name__} overrides _check_indices')
+
+
+def cp_array_bounds(ext):
+    """length bounds in force when a SerializableCPArray is built: its __init__ calls SerializableArray.__init__ (which runs
+    set_array) WITHOUT minimum_length / maximum_length and narrows the bounds only afterwards, so construction checks the
+    defaults of SerializableArray; `_check_indices` then indexes entries 0..3 (IndexError below four entries) and touches no other"""
+    from sarpy.io.xml.base import SerializableArray
+    fn = ast.parse(textwrap.dedent(inspect.getsource(ext.__init__))).body[0]
+    calls = [n for n in ast.walk(fn) if isinstance(n, ast.Call) and isinstance(n.func, ast.Attribute) and n.func.attr == '__init__'
+             and isinstance(n.func.value, ast.Call) and getattr(n.func.value.func, 'id', None) == 'super']
+    if len(calls) != 1:
+        raise ValueError('SerializableCPArray.__init__: expected one super().__init__ call')
+    kws = {k.arg for k in calls[0].keywords}
+    if 'minimum_length' in kws or 'maximum_length' in kws:
+        lo = hi = 4
+    else:
+        lo, hi = SerializableArray._default_minimum_length, SerializableArray._default_maximum_length
+    return max(lo, 4), max(hi, 4), 4
+
+
+def derived_prop(c, attr, d):
+    """a read-only property listed in _fields: ('count', src field) | ('const', value) | ('which', fields) | (None, why)"""
+    nm, b, why = match(c, d.fget, 'count_a', 'count_b', 'const', 'which')
+    if nm in ('count_a', 'count_b'):
+        src = b['F_src']
+        if src not in c._fields:
+            return None, f'{attr} counts {src}, which is not a field'
+        return ('count', src), None
+    if nm == 'const':
+        v = b['K_value']
+        if isinstance(v, bool) or not isinstance(v, (int, str)):
+            return None, f'{attr} is the constant {v!r} (neither int nor str)'
+        return ('const', v), None
+    if nm == 'which':
+        ch = getattr(c, '_choice', ())
+        if not ch:
+            return None, f'{attr}: no _choice group'
+        return ('which', tuple(ch[0]['collection'])), None
+    return None, f'read-only property {attr} matches no template ({why})'
+
+
+def string_prop(c, attr, d):
+    """a property with a setter that stores the string it is given (or the text of the node from_node hands over)"""
+    n1, b1, w1 = match(c, d.fget, 'strprop_get')
+    if n1 is None:
+        return f'property {attr}: getter {w1}'
+    n2, b2, w2 = match(c, d.fset, 'strprop_set_nodata', 'strprop_set_localdt')
+    if n2 is None:
+        return f'property {attr}: setter matches no template ({w2})'
+    if b1['F_priv'] != b2['F_priv']:
+        return f'property {attr}: getter reads {b1["F_priv"]}, setter writes {b2["F_priv"]}'
+    return None
+
+
+def field_rows(c, ctx, cinfo=None):
     """rows of python class c in namespace context ctx (None = default namespace), or (None, reason).
 
     Mirrors Serializable.to_node (base.py: the loop over self._fields) and from_node (the loop over cls._fields)."""
@@ -159,17 +699,25 @@ def field_rows(c, ctx):
         from sarpy.io.complex.sicd_elements.base import SerializableCPArrayDescriptor
     except Exception:   # pragma: no cover
         SerializableCPArrayDescriptor = ()
+    cinfo = cinfo or {}
     rows = []
-    for attr in c._fields:
+    for pos, attr in enumerate(c._fields):
         d = inspect.getattr_static(c, attr, None)
         base_tag = c._tag_override.get(attr, attr)
         required = attr in c._required
         fmt = c._numeric_format.get(attr)
         if attr in c._set_as_attribute:
-            # to_node: xml_ns_key = self._child_xml_ns_key.get(attribute, ns_key); serialize_attribute drops None/'default'
+            # to_node: xml_ns_key = self._child_xml_ns_key.get(attribute, None); serialize_attribute drops None/'default'
             # from_node: xml_ns_key = cls._child_xml_ns_key.get(attribute, None)
-            ser_ns = norm_ns(c._child_xml_ns_key.get(attr, ctx))
+            ser_ns = norm_ns(_attr_writer_ns(c, attr, ctx))
             par_ns = c._child_xml_ns_key.get(attr, None)   # a literal 'default' is looked up as {default-uri}tag
+            if isinstance(d, property) and d.fset is None:
+                dv, why = derived_prop(c, attr, d)
+                if dv is None or dv[0] != 'const':
+                    return None, why or f'attribute field {attr}: derived attribute of kind {dv[0]}'
+                rows.append(dict(name=attr, kind='const', prim='int' if isinstance(dv[1], int) else 'str', value=dv[1], as_attr=True,
+                                 tag=(ser_ns, base_tag), ptag=(par_ns, base_tag), required=required, fmt=fmt, desc='property'))
+                continue
             p = prim_of(d)
             if p is None:
                 return None, f'attribute field {attr} is not a primitive descriptor ({type(d).__name__})'
@@ -187,6 +735,27 @@ def field_rows(c, ctx):
         p = prim_of(d)
         if p is not None:
             row.update(kind='prim', prim=p, tag=(ns, base_tag), ptag=(ns, base_tag))
+        elif isinstance(d, property) and d.fset is None:
+            dv, why = derived_prop(c, attr, d)
+            if dv is None:
+                return None, why
+            if dv[0] == 'count':
+                sd = inspect.getattr_static(c, dv[1], None)
+                if not isinstance(sd, (D.SerializableListDescriptor, D.StringListDescriptor, D.IntegerListDescriptor, D.FloatListDescriptor)):
+                    return None, f'{attr} counts {dv[1]}, which is not a list field ({type(sd).__name__})'
+                row.update(kind='count', prim='int', src=c._fields.index(dv[1]), src_name=dv[1], tag=(ns, base_tag), ptag=(ns, base_tag))
+            elif dv[0] == 'const':
+                row.update(kind='const', prim='int' if isinstance(dv[1], int) else 'str', value=dv[1], as_attr=False,
+                           tag=(ns, base_tag), ptag=(ns, base_tag))
+            else:
+                if any(a not in c._fields for a in dv[1]):
+                    return None, f'{attr}: choice members {dv[1]} are not all fields'
+                row.update(kind='which', prim='str', alts=[(c._fields.index(a), a) for a in dv[1]], tag=(ns, base_tag), ptag=(ns, base_tag))
+        elif isinstance(d, property):
+            why = string_prop(c, attr, d)
+            if why is not None:
+                return None, why
+            row.update(kind='prim', prim='str', tag=(ns, base_tag), ptag=(ns, base_tag), via='property-backed string')
         elif isinstance(d, D.ComplexDescriptor):
             row.update(kind='child', cls=SYN_COMPLEX, cctx=ns, tag=(ns, base_tag), ptag=(ns, base_tag))
         elif isinstance(d, (D.SerializableDescriptor, D.UnitVectorDescriptor)):
@@ -201,13 +770,41 @@ def field_rows(c, ctx):
             ct = c._collections_tags.get(attr, {}).get('child_tag')
             if ct is None or ct != d.child_tag:
                 return None, f'parameters field {attr}: _collections_tags child_tag {ct!r} vs descriptor {d.child_tag!r}'
-            row.update(kind='list', cls=SYN_PARAM, cctx=ns, tag=(ns, ct), ptag=(ns, ct))
+            w = cinfo.get('wrapped', {}).get(attr)
+            if w is None:
+                row.update(kind='params', cls=SYN_PARAM, cctx=ns, tag=(ns, ct), ptag=(ns, ct), wrap=None)
+            else:
+                # <W><CT name="..">..</CT>*</W>: written by the class's own to_node after the generic fields, read by its from_node
+                if pos != len(c._fields) - 1:
+                    return None, f'wrapped parameters field {attr} is not the last field'
+                if w['wrap'] != base_tag or w['pwrap'] != base_tag or w['pchild'] != ct:
+                    return None, f'wrapped parameters field {attr}: tags {w} vs {base_tag}/{ct}'
+                row.update(kind='params', cls=SYN_PARAM, cctx=ns, tag=(ns, w['wrap']), ptag=(ns, w['pwrap']), wrap=((ns, ct), (ns, w['pchild'])))
         elif isinstance(d, (D.StringListDescriptor, D.IntegerListDescriptor, D.FloatListDescriptor)):
             ct = c._collections_tags.get(attr, {}).get('child_tag')
             if ct is None:
                 return None, f'primitive list field {attr} without child_tag'
             p = {'StringListDescriptor': 'str', 'IntegerListDescriptor': 'int', 'FloatListDescriptor': 'float'}[type(d).__name__]
             row.update(kind='primlist', prim=p, tag=(ns, ct), ptag=(ns, ct))
+        elif isinstance(d, D.FloatArrayDescriptor):
+            tags = c._collections_tags.get(attr, {})
+            ct = tags.get('child_tag')
+            if ct is None or ct != d.child_tag or not tags.get('array', False):
+                return None, f'float array field {attr}: inconsistent _collections_tags {tags!r}'
+            try:
+                idx_attr, base = farr_index_base(ct)
+            except Exception as e:
+                return None, f'float array field {attr}: {e}'
+            # writer (to_node): size attribute = array_tag.get('size_attribute', 'size'), wrapper / children under xml_ns_key;
+            # reader (FloatArrayDescriptor.__set__): self.size_attribute, children under _child_xml_ns_key[name] or the instance's key
+            row.update(kind='floatarr', prim='float', tag=(ns, base_tag), ptag=(ns, base_tag), ctag=(None, ct),
+                       pctag=(ns if attr in c._child_xml_ns_key else norm_ns(ctx), ct), size=tags.get('size_attribute', 'size'),
+                       psize=d.size_attribute, idxattr=idx_attr, base=base, minlen=d.minimum_length, maxlen=d.maximum_length)
+            # serialize_array: create_text_node(doc, ch_tag, ...) - the children are written WITHOUT a namespace prefix
+            if row['pctag'][0] is not None:
+                row['ctag'] = (None, ct)
+            else:
+                row['ctag'] = (None, ct)
         elif isinstance(d, D.SerializableArrayDescriptor) or (SerializableCPArrayDescriptor and isinstance(d, SerializableCPArrayDescriptor)):
             tags = c._collections_tags.get(attr, {})
             ct = tags.get('child_tag')
@@ -215,28 +812,73 @@ def field_rows(c, ctx):
                 return None, f'array field {attr}: inconsistent _collections_tags {tags!r}'
             if isinstance(d, D.SerializableArrayDescriptor):
                 ext = d.array_extension
-                # the container is built with _xml_ns_key = the parent's context (descriptors.py SerializableArrayDescriptor.__set__),
-                # and parse_serializable_array looks the children up with that key
-                par_child_ns = norm_ns(ctx)
+                # the container is built with _xml_ns_key = _child_xml_ns_key[name] if present else the parent's key
+                # (descriptors.py SerializableArrayDescriptor.__set__), and parse_serializable_array looks the children up with that key
+                par_child_ns = ns if attr in c._child_xml_ns_key else norm_ns(ctx)
             else:
                 from sarpy.io.complex.sicd_elements.base import SerializableCPArray
                 ext = SerializableCPArray
                 par_child_ns = ns
             own = [m for k in ext.__mro__ if k is not SerializableArray and k is not object
-                   for m in ('to_node', 'from_node', 'set_array', 'to_json_list') if m in k.__dict__]
+                   for m in ('to_node', 'from_node', 'set_array', 'to_json_list', '_check_indices') if m in k.__dict__]
             size_attr = ext._size_var_name if ext._set_size else None
             if ext.__name__ == 'SerializableCPArray':
                 size_attr = None   # its to_node writes no size attribute
-                own = [m for m in own if m != 'to_node']
+                own = [m for m in own if m not in ('to_node', '_check_indices')]
             if own:
                 return None, f'array field {attr}: container {ext.__name__} overrides {own}'
+            try:
+                idx_name, labels = array_index_rule(ext, d.child_type)
+            except Exception as e:
+                return None, f'array field {attr}: {e}'
+            idxpos = None
+            if idx_name is not None and idx_name in d.child_type._fields:
+                idesc = inspect.getattr_static(d.child_type, idx_name, None)
+                if prim_of(idesc) is None:
+                    return None, f'array field {attr}: index field {idx_name} of {d.child_type.__name__} is not a primitive descriptor'
+                idxpos = d.child_type._fields.index(idx_name)
+                if labels and prim_of(idesc) not in ('enum', 'str'):
+                    labels = []
+            else:
+                labels = []
+            minlen, maxlen = int(getattr(d, 'minimum_length', 0)), int(getattr(d, 'maximum_length', 2 ** 32))
+            idxlimit = 2 ** 32
+            if ext.__name__ == 'SerializableCPArray':
+                try:
+                    minlen, maxlen, idxlimit = cp_array_bounds(ext)
+                except Exception as e:
+                    return None, f'array field {attr}: {e}'
             row.update(kind='array', cls=d.child_type, cctx=ns, tag=(ns, base_tag), ptag=(ns, base_tag),
-                       ctag=(ns, ct), pctag=(par_child_ns, ct), size=size_attr, container=ext.__name__,
+                       ctag=(ns, ct), pctag=(par_child_ns, ct), size=size_attr, psize='size', container=ext.__name__,
+                       minlen=minlen, maxlen=maxlen, idxlimit=idxlimit,
+                       idxpos=idxpos, idxname=idx_name if idxpos is not None else None, labels=labels,
                        index_var=(ext._index_var_name if ext._set_index else None))
         else:
             return None, f'field {attr}: unsupported descriptor {type(d).__name__}'
         rows.append(row)
     return rows, None
+
+
+def _attr_writer_ns(c, attr, ctx):
+    """namespace key under which to_node writes an attribute field, read from the source of Serializable.to_node:
+    `xml_ns_key = self._child_xml_ns_key.get(attribute, <default>)` in the `_set_as_attribute` branch"""
+    from sarpy.io.xml.base import Serializable
+    global _ATTR_DEFAULT
+    try:
+        _ATTR_DEFAULT
+    except NameError:
+        fn = ast.parse(textwrap.dedent(inspect.getsource(Serializable.to_node))).body[0]
+        found = None
+        for n in ast.walk(fn):
+            if isinstance(n, ast.If) and ast.unparse(n.test) == 'attribute in self._set_as_attribute':
+                for st in n.body:
+                    if isinstance(st, ast.Assign) and ast.unparse(st.targets[0]) == 'xml_ns_key' and \
+                            ast.unparse(st.value).startswith('self._child_xml_ns_key.get(attribute, '):
+                        found = ast.unparse(st.value.args[1])
+        if found not in ('None', 'ns_key'):
+            raise ValueError(f'to_node: unexpected namespace rule for attributes: {found}')
+        _ATTR_DEFAULT = found
+    return c._child_xml_ns_key.get(attr, None if _ATTR_DEFAULT == 'None' else ctx)
 
 
 def prim_of(d):
@@ -262,22 +904,153 @@ def prim_of(d):
     return None
 
 
-def classify(c):
-    """None if table-driven, else the reason it is outside the generic theorem"""
-    ov = overrides(c)
-    if ov:
-        return 'overrides ' + ', '.join(ov)
-    rows, why = field_rows(c, None)
+def poly_spec(c):
+    """the coefficient-array construct of class c: (spec dict, None) | (None, why not)"""
+    k_to, f_to = own_method(c, 'to_node')
+    k_from, f_from = own_method(c, 'from_node')
+    k_td, f_td = own_method(c, 'to_dict')
+    if f_to is None or f_from is None or f_td is None:
+        return None, 'to_node / from_node / to_dict are not all overridden'
+    for m in ('from_dict', 'copy'):
+        if own_method(c, m)[1] is not None:
+            return None, f'{m} is overridden too'
+    n1, b1, w1 = match(c, f_to, 'poly1_to_node', 'poly2_to_node', 'custom_to_node')
+    if n1 is None:
+        return None, 'to_node matches no coefficient-array template: ' + w1
+    kind = n1.split('_')[0]
+    n2, b2, w2 = match(c, f_from, kind + '_from_node')
+    if n2 is None:
+        return None, f'from_node does not match the {kind} template: ' + w2
+    n3, b3, w3 = match(c, f_td, 'coefs_to_dict')
+    if n3 is None:
+        return None, 'to_dict: ' + w3
+    if b1['S_ctagfmt'] != '{}:' + b1['S_coef']:
+        return None, f'coefficient tag {b1["S_coef"]!r} vs prefixed form {b1["S_ctagfmt"]!r}'
+    if b3['S_dname'] != 'Coefs' or 'Coefs' not in c._fields or b1['S_field'] != 'Coefs' or b2['S_pfield'] != b1['S_field']:
+        return None, f'field names: to_dict {b3["S_dname"]}, to_node {b1["S_field"]}, from_node {b2["S_pfield"]}'
+    # dimension attributes: order = n - 1 (polynomials), num = n (filters)
+    if kind == 'poly1':
+        chk = [('order1', 'order_1d')]
+        off = 1
+    elif kind == 'poly2':
+        chk = [('order1', 'order_2d_0'), ('order2', 'order_2d_1')]
+        off = 1
+    else:
+        chk = [('_shape0', 'shape_0'), ('_shape1', 'shape_1')]
+        off = 0
+        if b1['S_wrapfmt'] != '{}:' + b1['S_wrap']:
+            return None, f'wrapper tag {b1["S_wrap"]!r} vs prefixed form {b1["S_wrapfmt"]!r}'
+    for nm, tn in chk:
+        f = inspect.getattr_static(c, nm, None)
+        f = f.fget if isinstance(f, property) else f
+        if f is None or match(c, f, tn)[0] is None:
+            return None, f'{nm} does not match its template ({match(c, f, tn)[2] if f else "missing"})'
+    spec = dict(kind=kind, two=kind != 'poly1', coef=b1['S_coef'], pcoef=b2['S_pcoef'], dim1=b1['S_dim1'], pdim1=b2['S_pdim1'],
+                dim2=b1.get('S_dim2', b1['S_dim1'] + '#2'), pdim2=b2.get('S_pdim2', b2['S_pdim1'] + '#2'),
+                exp1=b1['S_exp1'], pexp1=b2['S_pexp1'], exp2=b1.get('S_exp2', b1['S_exp1'] + '#2'), pexp2=b2.get('S_pexp2', b2['S_pexp1'] + '#2'),
+                off=off, wrap=b1.get('S_wrap'), pwrap=b2.get('S_pwrap'), fmt_key=b1['S_fmt'], dname='Coefs')
+    return spec, None
+
+
+def class_construct(c):
+    """how class c enters the model: ('rows', cinfo) | ('poly', spec) | ('opaque', reason).
+    cinfo: {'wrapped': {field: tags}, 'notes': [...]} - what the recognised overrides add to the generic field loop."""
+    from sarpy.io.xml.base import Serializable
+    ov = {}
+    for m in CODEC_METHODS:
+        k, f = own_method(c, m)
+        if f is not None:
+            ov[m] = (k, f)
+    cinfo = {'wrapped': {}, 'notes': []}
+    if 'Coefs' in c._fields and 'to_node' in ov:
+        spec, why = poly_spec(c)
+        if spec is None:
+            return 'opaque', 'overrides ' + ', '.join(overrides(c)) + ' -- ' + why
+        return 'poly', spec
+    if 'to_dict' in ov or 'from_dict' in ov:
+        return 'opaque', 'overrides ' + ', '.join(overrides(c))
+    if 'copy' in ov:
+        nm, b, why = match(c, ov['copy'][1], 'copy_private')
+        if nm is None or not b['F_priv'].startswith('_') or b['F_priv'] in c._fields:
+            return 'opaque', 'overrides ' + ', '.join(overrides(c)) + ' -- copy: ' + (why or 'copies a field')
+        cinfo['notes'].append(f'copy() = generic copy + deepcopy of the private attribute {b["F_priv"]}')
+    if 'to_node' in ov:
+        n1, b1, w1 = match(c, ov['to_node'][1], 'wrapparams_to_node')
+        n2, b2, w2 = match(c, ov['from_node'][1], 'wrapparams_from_node') if 'from_node' in ov else (None, None, 'from_node is not overridden')
+        if n1 is None or n2 is None:
+            return 'opaque', 'overrides ' + ', '.join(overrides(c)) + ' -- ' + (w1 if n1 is None else w2)
+        if b1['S_field'] != b2['S_field'] or b1['F_field'] != b1['S_field'] or b1['S_wrapfmt'] != '{}:' + b1['S_wrap']:
+            return 'opaque', 'overrides ' + ', '.join(overrides(c)) + f' -- wrapped parameters: inconsistent names {b1} {b2}'
+        cinfo['wrapped'][b1['S_field']] = dict(wrap=b1['S_wrap'], pwrap=b2['S_pwrap'], pchild=b2['S_pchild'])
+        cinfo['notes'].append(f'{b1["S_field"]}: parameters under the wrapper element <{b1["S_wrap"]}>')
+    elif 'from_node' in ov:
+        nm, b, why = match(c, ov['from_node'][1], 'guard_legacy_child', 'guard_radiometric', 'guard_wgttype', 'guard_sidd_a', 'guard_sidd_b', 'guard_sidd_c')
+        if nm is None:
+            return 'opaque', 'overrides ' + ', '.join(overrides(c)) + ' -- from_node matches no guard template: ' + why
+        own_tags = {c._tag_override.get(a, a) for a in c._fields} | {t.get('child_tag') for t in c._collections_tags.values()}
+        if nm in ('guard_legacy_child', 'guard_radiometric'):
+            if b['S_legacy'] in own_tags:
+                return 'opaque', f'from_node dispatches on <{b["S_legacy"]}>, which is one of the class\'s own tags'
+            cinfo['notes'].append(f'from_node = generic unless the legacy child <{b["S_legacy"]}> (not a tag of this class) is present')
+        elif nm == 'guard_wgttype':
+            if b['S_own'] not in c._required:
+                return 'opaque', f'from_node takes the legacy path when <{b["S_own"]}> is absent, and that field is not required'
+            cinfo['notes'].append(f'from_node = generic whenever the required <{b["S_own"]}> is present (legacy text form otherwise)')
+        else:
+            cinfo['notes'].append(f'from_node = generic for documents in namespace {b["S_urn"]}* (others refused or dispatched)')
+    rows, why = field_rows(c, None, cinfo)
     if rows is None:
-        return why
+        return 'opaque', why
     for k in ('__setattr__', '__getstate__', '__setstate__', '_get_formatter'):
-        from sarpy.io.xml.base import Serializable
-        for b in c.__mro__:
-            if b is Serializable:
+        for b_ in c.__mro__:
+            if b_ is Serializable:
                 break
-            if k in b.__dict__:
-                return f'overrides {k}@{b.__name__}'
-    return None
+            if k in b_.__dict__:
+                return 'opaque', f'overrides {k}@{b_.__name__}'
+    return 'rows', cinfo
+
+
+def construct_label(kind, info, rows=None):
+    """stable description of how a class is modelled, with the parameters read from its hand-written code (what the committed
+    expectation file records: a change of any of them is a change of the hand-written semantics)"""
+    if kind == 'poly':
+        sp = info
+        head = {'poly1': 'coefficient array 1-D', 'poly2': 'coefficient array 2-D', 'custom': 'coefficient array 2-D under a wrapper'}[sp['kind']]
+        return (f'{head}: <{sp["coef"]}> {sp["dim1"]}' + (f',{sp["dim2"]}' if sp['two'] else '') + f' = n-{sp["off"]}, {sp["exp1"]}'
+                + (f',{sp["exp2"]}' if sp['two'] else '') + (f', inside <{sp["wrap"]}>' if sp['wrap'] else '') + f', dict key {sp["dname"]}')
+    if kind == 'opaque':
+        return 'opaque'
+    extra = []
+    for r in rows or []:
+        k = r['kind']
+        if k == 'floatarr':
+            extra.append(f'floatarr {r["name"]}: <{r["ctag"][1]} {r["idxattr"]}=k+{r["base"]}> {r["size"]}')
+        elif k == 'count':
+            extra.append(f'count {r["name"]}=len({r["src_name"]})')
+        elif k == 'const':
+            extra.append(f'const {r["name"]}={r["value"]!r}' + (' (attribute)' if r['as_attr'] else ''))
+        elif k == 'which':
+            extra.append(f'which {r["name"]} of {"/".join(a for _, a in r["alts"])}')
+        elif r.get('via'):
+            extra.append(f'property-string {r["name"]}')
+        elif k == 'params' and r.get('wrap'):
+            extra.append(f'wrapped-params {r["name"]}: <{r["tag"][1]}><{r["wrap"][0][1]}>')
+    for n in info.get('notes', []):
+        if 'from_node' in n:
+            extra.append('guarded: ' + n)
+        elif 'copy()' in n:
+            extra.append('copy+private')
+    return 'rows' + (' + ' + ' | '.join(extra) if extra else '')
+
+
+def construct_family(label):
+    """coarse family of a label (for counting)"""
+    if label.startswith('coefficient array'):
+        return label.split(':')[0]
+    if label in ('rows', 'opaque'):
+        return label
+    fams = sorted({e.strip().split(' ')[0].rstrip(':') for e in label[len('rows + '):].split(' | ')})
+    return 'rows + ' + ', '.join(fams)
 
 
 class Interner:
@@ -294,6 +1067,53 @@ class Interner:
         return self.ids[s]
 
 
+EXPECTED = os.path.join(os.path.dirname(os.path.abspath(__file__)), 'xml_constructs_expected.json')
+PINS = os.path.join(os.path.dirname(os.path.abspath(__file__)), 'xml_base_pins.json')
+
+# the functions of sarpy/io/xml that Spec.XmlFmt transcribes by hand (no per-class data: they are the generic machinery).
+# Their normalised AST (docstrings, comments, annotations dropped) is pinned; a change is a broken obligation: the transcription
+# has to be looked at again, and the harness searches for a failing input meanwhile.
+BASE_FUNCTIONS = [
+    ('sarpy.io.xml.base', 'get_node_value'), ('sarpy.io.xml.base', 'create_new_node'), ('sarpy.io.xml.base', 'create_text_node'),
+    ('sarpy.io.xml.base', 'find_first_child'), ('sarpy.io.xml.base', 'find_children'),
+    ('sarpy.io.xml.base', 'parse_serializable'), ('sarpy.io.xml.base', 'parse_serializable_array'),
+    ('sarpy.io.xml.base', 'parse_serializable_list'), ('sarpy.io.xml.base', 'parse_parameters_collection'),
+    ('sarpy.io.xml.base', 'parse_complex'),
+    ('sarpy.io.xml.base', 'Serializable.__init__'), ('sarpy.io.xml.base', 'Serializable.from_node'),
+    ('sarpy.io.xml.base', 'Serializable.to_node'), ('sarpy.io.xml.base', 'Serializable.from_dict'),
+    ('sarpy.io.xml.base', 'Serializable.to_dict'), ('sarpy.io.xml.base', 'Serializable.copy'),
+    ('sarpy.io.xml.base', 'SerializableArray.__init__'), ('sarpy.io.xml.base', 'SerializableArray.set_array'),
+    ('sarpy.io.xml.base', 'SerializableArray._check_indices'), ('sarpy.io.xml.base', 'SerializableArray.to_node'),
+    ('sarpy.io.xml.base', 'SerializableArray.to_json_list'),
+    ('sarpy.io.xml.base', 'ParametersCollection.set_collection'), ('sarpy.io.xml.base', 'ParametersCollection.to_node'),
+    ('sarpy.io.xml.base', 'ParametersCollection.to_dict'),
+    ('sarpy.io.xml.descriptors', 'FloatArrayDescriptor.__set__'), ('sarpy.io.xml.descriptors', 'SerializableArrayDescriptor.__set__'),
+    ('sarpy.io.xml.descriptors', 'SerializableListDescriptor.__set__'), ('sarpy.io.xml.descriptors', 'ParametersDescriptor.__set__'),
+    ('sarpy.io.xml.descriptors', 'SerializableDescriptor.__set__'),
+    ('sarpy.io.complex.sicd_elements.base', 'SerializableCPArrayDescriptor.__set__'),
+    ('sarpy.io.complex.sicd_elements.base', 'SerializableCPArray.__init__'),
+    ('sarpy.io.complex.sicd_elements.base', 'SerializableCPArray._check_indices'),
+    ('sarpy.io.complex.sicd_elements.base', 'SerializableCPArray.to_node'),
+]
+
+
+def base_pins():
+    """{module:qualname -> sha256 of the normalised AST} of the transcribed functions"""
+    import hashlib
+    out = {}
+    for mod, qn_ in BASE_FUNCTIONS:
+        try:
+            obj = importlib.import_module(mod)
+            for part in qn_.split('.'):
+                obj = inspect.getattr_static(obj, part)
+            a = fn_ast(obj)
+            out[f'{mod}:{qn_}'] = 'unavailable' if a is None else hashlib.sha256(ast.dump(a).encode()).hexdigest()[:20]
+        except Exception as e:
+            out[f'{mod}:{qn_}'] = f'missing ({type(e).__name__})'
+    return out
+
+
+
 def build():
     """reflect everything; returns the python-side description used both for the Lean file and by the harness"""
     classes, failed = all_classes()
@@ -301,10 +1121,15 @@ def build():
     for r in roots:
         classes.setdefault(qual(r), r)
     outside = {}
+    construct = {}
+
+    def decide(q, c):
+        kind, inf = class_construct(c)
+        construct[q] = (kind, inf)
+        if kind == 'opaque':
+            outside[q] = inf
     for q, c in sorted(classes.items()):
-        why = classify(c)
-        if why is not None:
-            outside[q] = why
+        decide(q, c)
     # model classes: (qualified python class | synthetic, ctx); closure from (every class, None)
     ids = {}
     order = []
@@ -338,10 +1163,9 @@ def build():
         q = qual(c)
         if q not in classes:
             classes[q] = c          # reachable class defined outside the packages
-            why = classify(c)
-            if why is not None:
-                outside[q] = why
-        if q in outside:
+            decide(q, c)
+        kind, inf = construct[q]
+        if kind == 'opaque':
             tables[key] = None      # opaque
             # children of outside classes that the descriptors still expose are reachable too
             for attr in c._fields:
@@ -350,11 +1174,29 @@ def build():
                     if inspect.isclass(t):
                         cid(t, None)
             continue
-        rows, why = field_rows(c, ctx)
+        if kind == 'poly':
+            # to_node: ctag under _child_xml_ns_key['Coefs'] if present else the node's own key; from_node: the same rule;
+            # the wrapper of the filter classes is written / looked up under the node's own key
+            cns = c._child_xml_ns_key.get('Coefs', norm_ns(ctx))
+            sp = dict(inf)
+            sp.update(coef_q=(cns, inf['coef']), pcoef_q=(cns, inf['pcoef']),
+                      wrap_q=None if inf['wrap'] is None else ((norm_ns(ctx), inf['wrap']), (norm_ns(ctx), inf['pwrap'])),
+                      fmt=c._numeric_format.get(inf['fmt_key']))
+            tables[key] = {'poly': sp}
+            continue
+        rows, why = field_rows(c, ctx, inf)
         assert rows is not None, (q, ctx, why)
         for r in rows:
             if 'cls' in r:
                 r['cid'] = cid(r['cls'], r['cctx'])
+            if r['kind'] == 'array' and r['idxpos'] is not None:
+                cq = qual(r['cls'])
+                if cq not in construct:
+                    classes.setdefault(cq, r['cls'])
+                    decide(cq, r['cls'])
+                if construct[cq][0] != 'rows':
+                    # the entries are black boxes (or coefficient arrays): the index their container assigns is not visible to the model
+                    r['idxpos'], r['labels'], r['idxname'] = None, [], None
         tables[key] = rows
     # reachability from the roots (python classes, any context)
     reach = set()
@@ -365,7 +1207,7 @@ def build():
             continue
         reach.add(i)
         rows = tables[order[i]]
-        if rows:
+        if isinstance(rows, list):
             stack += [r['cid'] for r in rows if 'cid' in r]
         elif rows is None and not order[i][0].startswith('<'):
             c = classes[order[i][0]]
@@ -376,18 +1218,49 @@ def build():
                         stack.append(ids[(qual(t), None)])
     reach_py = sorted({order[i][0] for i in reach if not order[i][0].startswith('<')})
     extras = {q: e for q, c in sorted(classes.items()) for e in [init_extras(c)] if e}
+    labels = {}
+    for q in sorted(classes):
+        kind, inf = construct[q]
+        labels[q] = construct_label(kind, inf, tables.get((q, None)) if kind == 'rows' else None)
+    # classes that were modelled when the expectation file was written and no longer are (or are modelled differently)
+    regress = []
+    expected = {}
+    if os.path.exists(EXPECTED):
+        import json
+        expected = json.load(open(EXPECTED))
+        for q, lab in sorted(expected.items()):
+            now = labels.get(q)
+            if now != lab:
+                regress.append(dict(cls=q, expected=lab, now=now or 'class no longer exists', why=outside.get(q, '')))
+    pins = base_pins()
+    pin_changes = []
+    if os.path.exists(PINS):
+        import json
+        for k, v in sorted(json.load(open(PINS)).items()):
+            if pins.get(k) != v:
+                pin_changes.append(k)
     return dict(classes=classes, roots=[qual(r) for r in roots], outside=outside, order=order, ids=ids, tables=tables,
-                reachable=reach_py, import_failures=failed, init_extras=extras)
+                reachable=reach_py, import_failures=failed, init_extras=extras, construct=construct, labels=labels,
+                regressions=regress, expected=expected, pins=pins, pin_changes=pin_changes)
 
 
 def row_mismatch(r):
-    return r['tag'] != r['ptag'] or (r['kind'] == 'array' and r['ctag'] != r['pctag'])
+    return r['tag'] != r['ptag'] or (r['kind'] in ('array', 'floatarr') and r['ctag'] != r['pctag']) or \
+        (r['kind'] == 'floatarr' and r['size'] != r['psize']) or (r['kind'] == 'array' and r['size'] not in (None, r['psize'])) or \
+        (r['kind'] == 'params' and r.get('wrap') and r['wrap'][0] != r['wrap'][1])
+
+
+def const_text(r):
+    """the text a derived constant is written as (serialize_plain / serialize_attribute)"""
+    v = r['value']
+    return v if isinstance(v, str) else str(v)
 
 
 def lean_text(info):
     tags = Interner()
     nss = Interner([None])
     names = Interner()
+    consts = Interner(['float 0.0'])
 
     def qn(t):
         return f'({nss.get(t[0])}, {tags.get(t[1])})'
@@ -398,6 +1271,16 @@ def lean_text(info):
         rows = info['tables'][key]
         if rows is None:
             ents.append(f'  /- {i}: {key[0]} @{key[1]} -/ .custom')
+            continue
+        if isinstance(rows, dict):
+            sp = rows['poly']
+            a0 = lambda s: f'(0, {tags.get(s)})'
+            wr = 'none' if sp['wrap_q'] is None else f'(some ({qn(sp["wrap_q"][0])}, {qn(sp["wrap_q"][1])}))'
+            ents.append(f'  /- {i}: {key[0]} @{key[1]} -/ .poly {{ two := {"true" if sp["two"] else "false"}, coefTag := {qn(sp["coef_q"])}, '
+                        f'pCoefTag := {qn(sp["pcoef_q"])}, dim1 := {a0(sp["dim1"])}, pDim1 := {a0(sp["pdim1"])}, dim2 := {a0(sp["dim2"])}, '
+                        f'pDim2 := {a0(sp["pdim2"])}, exp1 := {a0(sp["exp1"])}, pExp1 := {a0(sp["pexp1"])}, exp2 := {a0(sp["exp2"])}, '
+                        f'pExp2 := {a0(sp["pexp2"])}, dimOff := {sp["off"]}, wrapper := {wr}, prim := {PRIM_ID["float"]}, '
+                        f'dname := {names.get(sp["dname"])}, fill := {consts.get("float 0.0")} }}')
             continue
         rs = []
         for r in rows:
@@ -416,7 +1299,22 @@ def lean_text(info):
                 kk = f'.primList {PRIM_ID[r["prim"]]}'
             elif k == 'array':
                 sz = 'none' if r['size'] is None else f'(some (0, {tags.get(r["size"])}))'
-                kk = f'.array {r["cid"]} {qn(r["ctag"])} {qn(r["pctag"])} {sz}'
+                ip = 'none' if r['idxpos'] is None else f'(some {r["idxpos"]})'
+                lb = '[' + ', '.join(str(consts.get('str ' + l)) for l in r['labels']) + ']'
+                kk = (f'.array {r["cid"]} {{ childTag := {qn(r["ctag"])}, pChildTag := {qn(r["pctag"])}, sizeAttr := {sz}, '
+                      f'pSizeAttr := (0, {tags.get(r["psize"])}), minLen := {r["minlen"]}, maxLen := {r["maxlen"]}, idxPos := {ip}, idxLabels := {lb}, idxLimit := {r["idxlimit"]} }}')
+            elif k == 'floatarr':
+                kk = (f'.floatArr {{ prim := {PRIM_ID[r["prim"]]}, childTag := {qn(r["ctag"])}, pChildTag := {qn(r["pctag"])}, '
+                      f'sizeAttr := (0, {tags.get(r["size"])}), pSizeAttr := (0, {tags.get(r["psize"])}), idxAttr := (0, {tags.get(r["idxattr"])}), base := {r["base"]} }}')
+            elif k == 'params':
+                w = 'none' if not r.get('wrap') else f'(some ({qn(r["wrap"][0])}, {qn(r["wrap"][1])}))'
+                kk = f'.params {r["cid"]} {w}'
+            elif k == 'count':
+                kk = f'.count {PRIM_ID[r["prim"]]} {r["src"]}'
+            elif k == 'const':
+                kk = f'.const {PRIM_ID[r["prim"]]} {consts.get(r["prim"] + " " + const_text(r))} {"true" if r["as_attr"] else "false"}'
+            elif k == 'which':
+                kk = f'.which {PRIM_ID[r["prim"]]} [' + ', '.join(f'({i_}, {consts.get("str " + a)})' for i_, a in r['alts']) + ']'
             else:
                 raise ValueError(k)
             if row_mismatch(r):
@@ -435,18 +1333,21 @@ def lean_text(info):
     lines.append(strlist('nsNames', nss.names))
     lines.append(strlist('fieldNames', names.names))
     lines.append(strlist('primNames', PRIMS))
+    lines.append(strlist('constNames', consts.names))
     lines.append('def classNames : List String := [' + ', '.join('"%s@%s"' % (k[0].replace('sarpy.', ''), k[1] or '') for k in info['order']) + ']')
     lines.append('def outsideClasses : List String := [' + ', '.join('"%s"' % q.replace('sarpy.', '') for q in sorted(info['outside'])) + ']')
     lines.append('')
     lines.append('/-- every table is well formed: distinct element tags, distinct attribute names, at most one text row, writer and reader')
-    lines.append('    agree on every qualified tag, child classes exist.  A change of a class table that breaks this breaks the build. -/')
+    lines.append('    agree on every qualified tag, attribute name, child tag and size attribute (rows, arrays, float arrays, parameter')
+    lines.append('    wrappers, coefficient arrays), the two exponent attributes of a 2-D coefficient array differ, child classes exist.')
+    lines.append('    A change of a class table or of a hand-written method that breaks this breaks the build. -/')
     lines.append('theorem tables_wf : WF tables := by decide +kernel')
     lines.append('')
     lines.append('/-- field names are distinct per class (what the dict form and copy rely on) -/')
     lines.append('theorem tables_dwf : DWF tables := by decide +kernel')
     lines.append('')
     lines.append('end Sarpy.Gen.Xml')
-    return '\n'.join(lines) + '\n', dict(tags=tags, nss=nss, names=names), mism
+    return '\n'.join(lines) + '\n', dict(tags=tags, nss=nss, names=names, consts=consts), mism
 
 
 def generate(path):
@@ -465,14 +1366,27 @@ def generate(path):
 
 if __name__ == '__main__':
     import logging
+    import sys
     logging.disable(logging.CRITICAL)
     here = os.path.dirname(os.path.abspath(__file__))
     r = generate(os.path.join(here, '..', 'lean', 'SarpyModel', 'Gen', 'XmlTables.lean'))
+    if '--write-expected' in sys.argv:
+        import json
+        with open(EXPECTED, 'w') as f:
+            json.dump({q: l for q, l in sorted(r['labels'].items()) if l != 'opaque'}, f, indent=0, sort_keys=True)
+        print('wrote', EXPECTED)
+        with open(PINS, 'w') as f:
+            json.dump(r['pins'], f, indent=0, sort_keys=True)
+        print('wrote', PINS)
     py = sorted(r['classes'])
     print('python classes', len(py), 'outside', len(r['outside']), 'model classes', len(r['order']),
           'opaque', sum(1 for k in r['order'] if r['tables'][k] is None), 'reachable', len(r['reachable']), 'changed', r['changed'])
     print('import failures', r['import_failures'])
     print('mismatch rows', r['mismatch_rows'])
+    print('regressions', r['regressions'])
+    print('pin changes', r['pin_changes'])
     for q, w in sorted(r['outside'].items()):
         print('  outside', q, '--', w)
+    import collections
+    print(collections.Counter(construct_family(l) for l in r['labels'].values()))
     print('init extras', len(r['init_extras']))
